@@ -22,9 +22,9 @@ func init() {
 
 type vfRecovered struct {
 	n     int
-	keys  [4][16]byte
-	ids   [4][16]byte
-	depth [4]uint8
+	keys  [6][16]byte
+	ids   [6][16]byte
+	depth [6]uint8
 }
 
 // vfRecover starts a fresh instance on dir and returns the holds of keys 1..3.
@@ -50,10 +50,10 @@ func vfRecover(dir string) (vfRecovered, bool) {
 		return out, false
 	}
 	vfDrainAof(env.db)
-	for k := uint8(1); k <= 3; k++ {
+	for k := uint8(1); k <= 4; k++ {
 		m := env.manager(vfKey(k))
 		for _, l := range vfHolders(m) {
-			if out.n < 4 {
+			if out.n < 6 {
 				out.keys[out.n], out.ids[out.n], out.depth[out.n] = l.command.LockKey, l.command.LockId, l.locked
 				out.n++
 			}
@@ -86,6 +86,15 @@ func vfC16History(dir string, third bool) *vfEnv {
 	}
 	u := env.newCmd(protocol.COMMAND_UNLOCK, vfKey(1), vfLockId(1))
 	env.unlock(0, u)
+	// a re-entrant hold on key 4: entered three times, left once — still live at depth 2 when the log is compacted
+	for i := 0; i < 3; i++ {
+		c := env.newCmd(protocol.COMMAND_LOCK, vfKey(4), vfLockId(4))
+		c.Expried, c.ExpriedFlag, c.Count, c.Rcount = 0xffff, 0x4100, 0, 3
+		env.lock(0, c)
+	}
+	u4 := env.newCmd(protocol.COMMAND_UNLOCK, vfKey(4), vfLockId(4))
+	u4.Rcount = 1
+	env.unlock(0, u4)
 	vfDrainAof(env.db)
 	env.slock.aof.Flush()
 	// rotation: what RewriteAofFile does when the size threshold is reached
@@ -109,7 +118,7 @@ func vfH_C16_whole() {
 	env := vfC16History(dir, vfChoice("third", 2) == 1)
 	before, ok := vfRecover(dir)
 	vfAssert(ok, "C16: recovery from the pre-compaction directory fails")
-	vfAssert(before.n >= 1, "C16: harness: no live hold was persisted")
+	vfAssert(before.n >= 2, "C16: harness: the live holds were not persisted")
 	env.slock.aof.rewriteAofFiles()
 	after, ok2 := vfRecover(dir)
 	vfAssert(ok2, "C16: recovery from the compacted directory fails")
